@@ -48,12 +48,14 @@ if [ "$WHAT" = tsan ] || [ "$WHAT" = all ]; then
 fi
 if [ "$WHAT" = miri ] || [ "$WHAT" = all ]; then
   T0=$(date +%s)
-  N=0; R=0
+  N=0; R=0; U=0
   for C in "C20 2" "C20 5" "C04 3" "C01 1" "C17 4" "C15 0"; do set -- $C
     LOG="$SANROOT/miri-$1-$2.log"
     MIRIFLAGS="-Zmiri-disable-isolation -Zmiri-tree-borrows -Zmiri-ignore-leaks" CARGO_TARGET_DIR=target/miri timeout 3600 cargo +nightly miri run --offline -q -- debug case $1 quick 1 $2 > "$LOG" 2>&1
-    N=$((N+1)); grep -q "Undefined Behavior\|error: " "$LOG" && R=$((R+1))
+    # (an "unsupported operation" - Miri cannot spawn processes or cross FFI - is a limit of the tool, not a report)
+    N=$((N+1)); grep -q "Undefined Behavior\|Data race detected\|error: memory leaked" "$LOG" && R=$((R+1))
+    grep -q "unsupported operation" "$LOG" && U=$((U+1))
   done
-  record miri "in-process cases C20x2 C04 C01 C17 C15 (tree borrows)" $N $R $(( $(date +%s) - T0 )) "UB/data-race reports: $R"
+  record miri "in-process cases C20x2 C04 C01 C17 C15 (tree borrows)" $N $R $(( $(date +%s) - T0 )) "UB/data-race reports: $R; runs that stopped at an operation Miri does not support: $U"
 fi
 cat "$OUT" | tail -30
